@@ -25,6 +25,7 @@ import (
 	"github.com/rpcpool/yellowstone-faithful/blocktimeindex"
 	"github.com/rpcpool/yellowstone-faithful/bucketteer"
 	"github.com/rpcpool/yellowstone-faithful/carreader"
+	"github.com/rpcpool/yellowstone-faithful/compactindexsized"
 	deprecatedbucketter "github.com/rpcpool/yellowstone-faithful/deprecated/bucketteer"
 	"github.com/rpcpool/yellowstone-faithful/gsfa"
 	hugecache "github.com/rpcpool/yellowstone-faithful/huge-cache"
@@ -888,6 +889,11 @@ func (ser *Epoch) GetBlock(ctx context.Context, slot uint64) (*ipldbindcode.Bloc
 	if err != nil {
 		return nil, cid.Cid{}, fmt.Errorf("failed to decode block with CID %s: %w", wantedCid, err)
 	}
+	// The slot-to-cid index stores no keys (only a 24-bit hash per entry): an absent slot can map onto the entry of
+	// another slot. The decoded block must be the block of the requested slot.
+	if uint64(decoded.Slot) != slot {
+		return nil, cid.Cid{}, fmt.Errorf("slot %d: index points at block %s of slot %d: %w", slot, wantedCid, decoded.Slot, compactindexsized.ErrNotFound)
+	}
 	return decoded, wantedCid, nil
 }
 
@@ -965,6 +971,15 @@ func (ser *Epoch) GetTransaction(ctx context.Context, sig solana.Signature) (*ip
 	decoded, err := iplddecoders.DecodeTransaction(data)
 	if err != nil {
 		return nil, cid.Cid{}, fmt.Errorf("failed to decode transaction with CID %s: %w", wantedCid, err)
+	}
+	// The sig-to-cid index stores no keys (only a 24-bit hash per entry): an absent signature can map onto the entry of
+	// another signature. The decoded transaction must carry the requested signature as its first signature.
+	gotSig, err := decoded.Signature()
+	if err != nil {
+		return nil, cid.Cid{}, fmt.Errorf("failed to read the signature of transaction with CID %s: %w", wantedCid, err)
+	}
+	if gotSig != sig {
+		return nil, cid.Cid{}, fmt.Errorf("signature %s: index points at transaction %s with signature %s: %w", sig, wantedCid, gotSig, compactindexsized.ErrNotFound)
 	}
 	return decoded, wantedCid, nil
 }
